@@ -6,7 +6,9 @@ class STLParserErrorListener( ErrorListener ):
         raise RTAMTException (str(line) + ":" + str(column) + ": Syntax ERROR, " + str(msg))
 
     def reportAmbiguity(self, recognizer, dfa, startIndex, stopIndex, exact, ambigAlts, configs):
-        raise RTAMTException("Ambiguity ERROR, " + str(configs))
+        # a diagnostic, not an error: the text is in the language and ANTLR resolves the choice by the
+        # precedence order of the grammar (`x >= 3 - a` groups like `x >= (3 - a)`)
+        pass
 
     def reportAttemptingFullContext(self, recognizer, dfa, startIndex, stopIndex, conflictingAlts, configs):
         pass
